@@ -240,9 +240,8 @@ func (r *mslRules) condExpr(c *checker, x *Cond) Expr {
 		c.invalid(x.Pos, "syntax", "braced initializer list as an operand of ?:")
 	case at == bt:
 		x.T = at
-		if x.A.base().LV && x.B.base().LV {
-			x.LV = false // the result could be an lvalue; it is only read here
-		}
+		// C++14 [expr.cond]/4: two l-values of the same type give an l-value
+		x.LV = x.A.base().LV && x.B.base().LV && !r.st.zeroConv[at]
 	case r.st.zeroConv[bt]:
 		x.B = conv(x.B, at)
 		x.T = at
@@ -323,7 +322,11 @@ func (r *mslRules) binaryTypes(c *checker, pos Pos, op string, lt, rt *Type) (re
 		c.invalid(pos, "syntax", "braced initializer list as an operand of %s", op)
 	}
 	if r.st.zeroConv[lt] || r.st.zeroConv[rt] {
-		c.unsupported(pos, "operator %s on a DefaultConstructible temporary", op)
+		// the class converts to every type T through its conversion function
+		// template, so every built-in candidate operator (C++14 [over.built])
+		// is viable with an indistinguishable user-defined conversion
+		// sequence: the call is ambiguous ([over.match.oper], [over.ics.rank])
+		c.invalid(pos, "no-overload", "use of operator %s with a DefaultConstructible operand is ambiguous: the operand converts to every arithmetic type (C++14 [over.built], [over.match.oper]) - missing parentheses around a `?:` expression?", op)
 	}
 	if lt == tMemFlags && rt == tMemFlags && op == "|" {
 		return tMemFlags, lt, rt, bmCustom
@@ -333,8 +336,16 @@ func (r *mslRules) binaryTypes(c *checker, pos Pos, op string, lt, rt *Type) (re
 		if mslArith(lt) && mslArith(rt) {
 			return tBool, tBool, tBool, bmLogical
 		}
-		if lt.Kind == KVec || rt.Kind == KVec {
-			c.unsupported(pos, "operator %s on vectors", op)
+		// MSL §3.1: "The logical operators and (&&), or (||) operate on two
+		// Boolean expressions. The result is a scalar or vector Boolean."
+		lu, ru := mslUnpack(lt), mslUnpack(rt)
+		switch {
+		case lu.Kind == KVec && lu.Elem == tBool && (ru == lu || ru == tBool):
+			return lu, lu, lu, bmCustom
+		case ru.Kind == KVec && ru.Elem == tBool && lu == tBool:
+			return ru, ru, ru, bmCustom
+		case lu.Kind == KVec || ru.Kind == KVec:
+			c.unsupported(pos, "operator %s on non-bool vectors", op)
 		}
 		bad("")
 	case "^^":
@@ -600,11 +611,6 @@ func (r *mslRules) checkTop(c *checker, decls []*mslTop) {
 			if d.Struct.Name == "_mslBufferSizes" {
 				r.st.sizesStruct = t
 			}
-			for _, f := range t.Struct.Fields {
-				if f.T.hasRuntimeArray() && f.Name != t.Struct.Fields[len(t.Struct.Fields)-1].Name {
-					c.unsupported(d.Struct.Pos, "runtime-sized array member %s.%s that is not the last member", d.Struct.Name, f.Name)
-				}
-			}
 		case d.Typedef != nil:
 			td := d.Typedef
 			t := c.resolveType(td.TypeX, unsizedNo)
@@ -815,18 +821,40 @@ func (r *mslRules) function(c *checker, fn *Function) {
 // parameters of the forms A, space A&, space A*)
 // ---------------------------------------------------------------------------
 
-// instantiateFor deduces the template arguments from the argument types and
-// returns the matching instantiation of every template named name.
-func (r *mslRules) instantiateFor(c *checker, pos Pos, name string, args []Expr) {
-	for _, tpl := range r.st.templates[name] {
-		if len(tpl.Proto.Params) != len(args) {
+// resolveTemplateCall performs template argument deduction for every template
+// named name, overload resolution among the deduced signatures (C++14
+// [over.match.funcs]/7: only the selected specialisation is instantiated) and
+// instantiates the winner.  It returns nil when no template is viable.
+func (r *mslRules) resolveTemplateCall(c *checker, x *mslTemplateCall) *Function {
+	type inst struct {
+		tpl  *mslTemplate
+		bind map[string]*Type
+		key  string
+	}
+	withScope := func(tpl *mslTemplate, bind map[string]*Type, f func()) {
+		savedScopes, savedFn, savedFrame, savedLoops, savedSwits := c.scopes, c.fn, c.frame, c.loops, c.swits
+		// restore on unwinding too: the frames above run deferred pops
+		defer func() {
+			c.scopes, c.fn, c.frame, c.loops, c.swits = savedScopes, savedFn, savedFrame, savedLoops, savedSwits
+		}()
+		tscope := &scope{syms: map[string]*Symbol{}}
+		for _, tp := range tpl.TParams {
+			tscope.syms[tp] = &Symbol{Kind: SymStruct, Name: tp, T: bind[tp], Pos: tpl.Pos, Depth: 1}
+		}
+		c.scopes = []*scope{savedScopes[0], tscope}
+		c.loops, c.swits = 0, 0
+		f()
+	}
+	var cands []candidate
+	for _, tpl := range r.st.templates[x.Name] {
+		if len(tpl.Proto.Params) != len(x.Args) {
 			continue
 		}
 		bind := map[string]*Type{}
 		ok := true
 		for i, p := range tpl.Proto.Params {
 			pi := r.st.paramInfo[p]
-			at := args[i].base().T
+			at := x.Args[i].base().T
 			pname := p.TypeX.Name
 			want := at
 			if pi.Ptr {
@@ -838,11 +866,6 @@ func (r *mslRules) instantiateFor(c *checker, pos Pos, name string, args []Expr)
 					break
 				}
 				want = at.Elem
-			} else if pi.Ref {
-				if !args[i].base().LV {
-					ok = false
-					break
-				}
 			}
 			isT := false
 			for _, tp := range tpl.TParams {
@@ -851,10 +874,10 @@ func (r *mslRules) instantiateFor(c *checker, pos Pos, name string, args []Expr)
 				}
 			}
 			if !isT {
-				continue // a non-dependent parameter: checked by overload resolution
+				continue // a non-dependent parameter: judged by overload resolution
 			}
 			if len(p.TypeX.Dims) > 0 {
-				c.unsupported(pos, "template parameter of array type")
+				c.unsupported(x.Pos, "template parameter of array type")
 			}
 			if old, seen := bind[pname]; seen && old != want {
 				ok = false
@@ -869,24 +892,38 @@ func (r *mslRules) instantiateFor(c *checker, pos Pos, name string, args []Expr)
 		for _, tp := range tpl.TParams {
 			bt := bind[tp]
 			if bt == nil {
-				c.unsupported(pos, "template argument %s of %s cannot be deduced", tp, name)
+				c.unsupported(x.Pos, "template argument %s of %s cannot be deduced", tp, x.Name)
 			}
 			key += fmt.Sprintf("%s=%p;", tp, bt)
 		}
-		if tpl.instances[key] != nil {
-			continue
-		}
-		fn := r.fe.instantiate(r.st.parser, tpl)
-		tpl.instances[key] = fn
-		// check the instantiation at namespace scope with the parameters bound
-		savedScopes, savedFn, savedFrame, savedLoops, savedSwits := c.scopes, c.fn, c.frame, c.loops, c.swits
-		tscope := &scope{syms: map[string]*Symbol{}}
-		for _, tp := range tpl.TParams {
-			tscope.syms[tp] = &Symbol{Kind: SymStruct, Name: tp, T: bind[tp], Pos: tpl.Pos, Depth: 1}
-		}
-		c.scopes = []*scope{savedScopes[0], tscope}
-		c.loops, c.swits = 0, 0
-		c.function(fn)
-		c.scopes, c.fn, c.frame, c.loops, c.swits = savedScopes, savedFn, savedFrame, savedLoops, savedSwits
+		// the parameter types of the specialisation
+		var pts []*Type
+		var dirs []string
+		withScope(tpl, bind, func() {
+			for _, p := range tpl.Proto.Params {
+				pts = append(pts, c.resolveType(&TypeExpr{Pos: p.TypeX.Pos, Name: p.TypeX.Name}, unsizedNo))
+				dirs = append(dirs, p.Dir)
+			}
+		})
+		cands = append(cands, candidate{pts, dirs, &inst{tpl, bind, key}})
 	}
+	if len(cands) == 0 {
+		return nil
+	}
+	fake := &Call{ExprBase: ExprBase{Pos: x.Pos}, Name: x.Name, Args: x.Args}
+	ref, why := c.pickOverload(fake, cands)
+	if ref == nil {
+		if why == "ambiguous" {
+			c.invalid(x.Pos, "no-overload", "call of %s%s is ambiguous", x.Name, mslArgTypes(x.Args))
+		}
+		return nil
+	}
+	in := ref.(*inst)
+	if fn := in.tpl.instances[in.key]; fn != nil {
+		return fn
+	}
+	fn := r.fe.instantiate(r.st.parser, in.tpl)
+	in.tpl.instances[in.key] = fn
+	withScope(in.tpl, in.bind, func() { c.function(fn) })
+	return fn
 }
